@@ -369,9 +369,12 @@ fn chunking<F: Family>(report: &Report, tier: Tier, key: &[u8; 40], kr: &KeyResu
     report.count("chunk_composition_cases", evals.load(Ordering::Relaxed));
 
     // (3) thorough, first key only: L = 2 with ALL 65,536 contents from every reachable state
-    if all_pairs && tier == Tier::Thorough {
+    if all_pairs {
         let evals = AtomicU64::new(0);
-        kr.enc_states.par_iter().zip(kr.dec_states.par_iter()).for_each(|(es, ds)| {
+        // quick: every 40th reachable state (all positions occur, 256 states); thorough: every state
+        let stride = if tier == Tier::Thorough { 1 } else { 41 };
+        let idx: Vec<usize> = (0..kr.enc_states.len()).step_by(stride).collect();
+        idx.par_iter().map(|&i| (&kr.enc_states[i], &kr.dec_states[i])).for_each(|(es, ds)| {
             for x0 in 0..=255u8 {
                 for x1 in 0..=255u8 {
                     let mut e = es.0.clone();
@@ -393,7 +396,7 @@ fn chunking<F: Family>(report: &Report, tier: Tier, key: &[u8; 40], kr: &KeyResu
             evals.fetch_add(2 * 65536, Ordering::Relaxed);
         });
         report.count("chunk_two_byte_all_contents_cases", evals.load(Ordering::Relaxed));
-        report.space("two-byte calls: all 65,536 contents from every reachable state of one key, both directions");
+        report.space(if tier == Tier::Thorough { "two-byte calls: all 65,536 contents from every reachable state of one key, both directions" } else { "two-byte calls: all 65,536 contents from every 41st reachable state (about 250 states, all positions) of one key, both directions" });
     }
 }
 
